@@ -82,7 +82,7 @@ func runMuxScenario(rng *rand.Rand) (steps []muxStep, nsubs int) {
 		}
 		// take the next thing that happens
 		cases := []reflect.SelectCase{{Dir: reflect.SelectRecv, Chan: reflect.ValueOf(done)},
-			{Dir: reflect.SelectRecv, Chan: reflect.ValueOf(time.After(3 * time.Second))}}
+			{Dir: reflect.SelectRecv, Chan: reflect.ValueOf(time.After(60 * time.Second))}}
 		idx := []int{-1, -1}
 		for i, s := range subs {
 			if live[i] {
